@@ -642,6 +642,12 @@ pub fn tampered_block(
 		// change an input commitment may end up here; anything else would mean the
 		// block is being rejected for a reason other than the intended one
 		let utxo_level = matches!(t, TxLevel(ci) if matches!(tx_catalogue()[ci as usize], TxT::InAmountPlus | TxT::InAmountMinus | TxT::DropOutput | TxT::DropInput));
+		if !utxo_level && e.contains("DuplicateCommitment") {
+			// the corruption changed an output's amount and the new (amount, key) pair happens to be a
+			// commitment that is already unspent on this chain (commitments are a function of amount and
+			// key here): a second, unintended defect — this corruption is not constructible at this point
+			return Ok(None);
+		}
 		if !utxo_level {
 			return Err(format!("could not root a {:?} block although its defect is not at UTXO level: {}", t, e));
 		}
